@@ -214,8 +214,17 @@ def audit(prop):
     if not mods:
         return 0, 0, {}, True, ""
     ok, log = lake_build(mods)
+    bad_mods = []
     if not ok:
-        return len(names), 0, {n: "module does not build" for n in names}, False, log
+        # find out which of the property's theorem modules still build: their theorems remain discharged, and the
+        # replay names exactly the obligations that no longer check
+        good = []
+        for m in mods:
+            okm, _l = lake_build([m])
+            (good if okm else bad_mods).append(m)
+        if not good:
+            return len(names), 0, {n: "module does not build" for n in names}, False, log
+        mods = good
     src = "".join(f"import {m}\n" for m in mods) + "".join(
         f"#print axioms {n}\n" for n in names
     )
@@ -239,13 +248,13 @@ def audit(prop):
     res = {}
     for n in names:
         if n not in details:
-            res[n] = "missing: " + out[-300:]
+            res[n] = ("module does not build (one of " + ", ".join(bad_mods) + ")") if bad_mods else "missing: " + out[-300:]
         elif set(details[n]) - ALLOWED_AXIOMS:
             res[n] = "forbidden axioms: " + ",".join(sorted(set(details[n]) - ALLOWED_AXIOMS))
         else:
             res[n] = "ok: " + (",".join(details[n]) or "no axioms")
             discharged += 1
-    return len(names), discharged, res, True, out
+    return len(names), discharged, res, not bad_mods, (log if bad_mods else out)
 
 
 def leanchecker(prop):
